@@ -599,6 +599,12 @@ func vxC08RunSched(c *vxC08Sched) (*vxC08Out, error) {
 	return out, nil
 }
 
+func vxC08Catch(f func()) (pan interface{}) {
+	defer func() { pan = recover() }()
+	f()
+	return nil
+}
+
 func vxC08Bucket(n int) string {
 	switch {
 	case n == 0:
@@ -1029,7 +1035,7 @@ func vxC08RunSeq(c *vxC08Seq, k *vstats.Case) error {
 	if err := avail("after prefill"); err != nil {
 		return err
 	}
-	failed, reclears, boundary := 0, 0, false
+	failed, reclears, boundary, outside := 0, 0, false, 0
 	for i, op := range c.Ops {
 		when := fmt.Sprintf("op %d (%s)", i, op.K)
 		sel := op.Sel
@@ -1088,6 +1094,23 @@ func vxC08RunSeq(c *vxC08Seq, k *vstats.Case) error {
 			}
 		case "clearany":
 			id := 1 + sel%(cp-1)
+			if sel%7 == 6 {
+				// an id the generator never hands out: below the range or at / beyond its end (the reserved id 0
+				// is left alone: /repo's own TestClearStreams clears it) - released, it reports "not in use"
+				out := []int{-1, -64, -65, cp, cp + 1, cp + 63, -cp}[(sel/7)%7]
+				var got bool
+				if pan := vxC08Catch(func() { got = s.Clear(out) }); pan != nil {
+					return fmt.Errorf("%s: Clear(%d) panicked: %v (ids are 1..%d)", when, out, pan, cp-1)
+				}
+				if got {
+					return fmt.Errorf("%s: Clear(%d) = true for an id outside 1..%d", when, out, cp-1)
+				}
+				outside++
+				if err := avail("after " + when); err != nil {
+					return err
+				}
+				continue
+			}
 			want := held[id]
 			if got := s.Clear(id); got != want {
 				return fmt.Errorf("%s: Clear(%d) = %v, handed out = %v", when, id, got, want)
@@ -1116,6 +1139,9 @@ func vxC08RunSeq(c *vxC08Seq, k *vstats.Case) error {
 	}
 	if reclears > 0 {
 		k.Class("double-release")
+	}
+	if outside > 0 {
+		k.Class("release of an id outside the range")
 	}
 	if boundary {
 		k.Class("near-exhaustion")
